@@ -42,8 +42,8 @@ def jobs(tier):
         A(lambda: AFifoInst("ClockDomainCrossing(4,buffered,usb->eth)/1b/alt", _cdc(L1, 4, True), 2, buffered=True,
                             cd_w="usb", cd_r="eth", **alt))
         A(lambda: AFifoInst("AsyncFIFO(4)/1b/free", stream.AsyncFIFO(L1, 4), 2, tokens=(TA, TB)))
-        A(lambda: AFifoInst("AsyncFIFO(4,buffered)/1b/free", stream.AsyncFIFO(L1, 4, buffered=True), 2,
-                            buffered=True, tokens=(TA, TB)))
+        A(lambda: AFifoInst("AsyncFIFO(4,buffered)/1b/free/eager", stream.AsyncFIFO(L1, 4, buffered=True), 2,
+                            buffered=True, tokens=(TA, TB), eager=True))
         A(lambda: AFifoInst("ClockDomainCrossing(8,usb->eth)/1b/alt", _cdc(L1, 8), 3, cd_w="usb", cd_r="eth", **alt))
         A(lambda: AFifoInst("ClockDomainCrossing(8,buffered,usb->eth)/1b/alt/eager", _cdc(L1, 8, True), 3,
                             buffered=True, cd_w="usb", cd_r="eth", eager=True, **alt))
